@@ -607,6 +607,8 @@ impl Expansion<'_> {
                         Some(parse_quote! { #ty: derive_more::core::fmt::#trait_ident })
                     }));
                 }
+                // An attribute may carry `bound(...)` only, without any format.
+                bounds.extend(self.attrs.common.bounds.0.clone());
                 has_shared_attr
             }
         };
